@@ -312,9 +312,45 @@ func c18Scan(c *Ctx, SC *ssa.Function) {
 			}
 		}
 	}
+	// the two levels, as values: the map decoded from the argument (payload level) and its "targetArtifact" member
+	// asserted to a map (descriptor level)
+	var outerMap ssa.Value
+	for _, ci := range findCalls(SC, "encoding/json.Unmarshal") {
+		if desc(ci.Common().Args[0]) == "param:"+SC.Params[0].Name() {
+			if al, ok := unwrap(ci.Common().Args[1]).(*ssa.Alloc); ok {
+				outerMap = al
+			}
+		}
+	}
+	innerMaps := c18InnerMaps(SC, outerMap)
+	isOuter := func(v ssa.Value) bool { return outerMap != nil && c18MapOrigin(v) == outerMap }
+	isInner := func(v ssa.Value) bool { return c18InnerLevel(v, innerMaps) }
+	// a key taken out of the report must be one the level may have: a JSON name of ocispec.Descriptor at the descriptor
+	// level, "targetArtifact" at the payload level (a removal whose map is neither of the two values is held to the union)
 	okDel := true
 	var deleted []string
 	outer := ""
+	exclude := func(m ssa.Value, s string) {
+		deleted = append(deleted, s)
+		switch {
+		case m != nil && isOuter(m):
+			if s == "targetArtifact" {
+				outer = s
+			} else {
+				okDel = false
+			}
+		case m != nil && isInner(m):
+			if !names[s] {
+				okDel = false
+			}
+		default:
+			if s == "targetArtifact" {
+				outer = s
+			} else if !names[s] {
+				okDel = false
+			}
+		}
+	}
 	for _, ci := range allCalls(SC) {
 		call, ok := ci.(*ssa.Call)
 		if !ok {
@@ -327,14 +363,7 @@ func c18Scan(c *Ctx, SC *ssa.Function) {
 				continue
 			}
 			s, _ := unquote(constString(k))
-			deleted = append(deleted, s)
-			if s == "targetArtifact" {
-				outer = s
-				continue
-			}
-			if !names[s] {
-				okDel = false
-			}
+			exclude(call.Call.Args[0], s)
 			continue
 		}
 		// maps.DeleteFunc(m, pred) removes exactly the keys pred accepts (library contract). With pred a membership test in
@@ -348,15 +377,25 @@ func c18Scan(c *Ctx, SC *ssa.Function) {
 				continue
 			}
 			for _, s := range list {
-				deleted = append(deleted, s)
-				if s == "targetArtifact" {
-					outer = s
-					continue
-				}
-				if !names[s] {
-					okDel = false
-				}
+				exclude(call.Call.Args[0], s)
 			}
+		}
+	}
+	// a level may also be reported by a loop of the scan itself that collects every key except constants it compares the
+	// key with (filter while collecting, see c18KeyCollector): those constants are keys taken out of the report, too
+	colOuter := c18KeyCollector(w, SC, isOuter)
+	colInner := c18KeyCollector(w, SC, isInner)
+	if colOuter.ok {
+		for _, s := range colOuter.filter {
+			exclude(outerMap, s)
+		}
+	}
+	if colInner.ok {
+		for m := range innerMaps {
+			for _, s := range colInner.filter {
+				exclude(m, s)
+			}
+			break
 		}
 	}
 	c.Check(okDel && outer != "" && len(deleted) >= 5, "scan/removes-only-descriptor-fields", "the scan removes only the JSON names of ocispec.Descriptor fields (and targetArtifact at the outer level): everything else is reported", w.FnPos(SC), fmt.Sprintf("deleted keys: %v", deleted))
@@ -390,24 +429,34 @@ func c18Scan(c *Ctx, SC *ssa.Function) {
 			}
 		}
 	}
-	var outerMap, innerMap ssa.Value
-	for _, ci := range findCalls(SC, "encoding/json.Unmarshal") {
-		if desc(ci.Common().Args[0]) == "param:"+SC.Params[0].Name() {
-			if al, ok := unwrap(ci.Common().Args[1]).(*ssa.Alloc); ok {
-				outerMap = al
-			}
+	var innerMap ssa.Value
+	for m := range reported {
+		if innerMaps[m] {
+			innerMap = m
 		}
 	}
-	for m := range reported {
-		if ta, ok := m.(*ssa.TypeAssert); ok && ta.CommaOk {
-			if lk, ok := ta.X.(*ssa.Lookup); ok && outerMap != nil && c18MapOrigin(lk.X) == outerMap && desc(lk.Index) == `const:"targetArtifact"` {
-				innerMap = m
-			}
+	if _, has := reported[outerMap]; !has && outerMap != nil && colOuter.ok {
+		reported[outerMap] = "loop"
+	}
+	if innerMap == nil && colInner.ok {
+		for m := range innerMaps {
+			innerMap = m
+			reported[m] = "loop"
+			break
 		}
 	}
 	_, outerReported := reported[outerMap]
 	byValue := outerMap != nil && innerMap != nil && outerReported
-	c.Check(okRet || byValue, "scan/reports-both-levels", "the scan reports the leftover keys of the descriptor level and of the payload level", w.FnPos(SC), "one level is not reported")
+	lvl := "one level is not reported"
+	if !(okRet || byValue) {
+		if !outerReported {
+			lvl += "; payload level: " + colOuter.why
+		}
+		if innerMap == nil {
+			lvl += "; descriptor level: " + colInner.why
+		}
+	}
+	c.Check(okRet || byValue, "scan/reports-both-levels", "the scan reports the leftover keys of the descriptor level and of the payload level", w.FnPos(SC), lvl)
 	// the map scanned is decoded from the parameter
 	okSrc := false
 	for _, ci := range findCalls(SC, "encoding/json.Unmarshal") {
@@ -447,8 +496,10 @@ func c18Scan(c *Ctx, SC *ssa.Function) {
 	if nks == 0 {
 		// no hand-written key-set loop: both levels are gathered by the library (maps.Keys yields every key of the map,
 		// slices.AppendSeq / slices.Collect keep every value of the sequence) — nothing in the module can filter a key
-		byLibrary := byValue && reported[outerMap] == "library" && reported[innerMap] == "library"
-		c.Check(byLibrary, "scan/keyset-complete", "the key-set helper reports every key of the map (or the keys are gathered by maps.Keys + slices.AppendSeq/Collect)", w.FnPos(SC), "no key-set loop found")
+		// — or by a loop of the scan that appends every key it has not compared equal to a constant (c18KeyCollector L2–L6)
+		complete := func(how string) bool { return how == "library" || how == "loop" }
+		byLibrary := byValue && complete(reported[outerMap]) && complete(reported[innerMap])
+		c.Check(byLibrary, "scan/keyset-complete", "the key-set helper reports every key of the map (or the keys are gathered by maps.Keys + slices.AppendSeq/Collect, or by a loop of the scan that skips a key only after comparing it equal to a constant)", w.FnPos(SC), "no key-set loop found")
 	}
 	c.Check(okSrc, "scan/decodes-its-argument", "the scan decodes the bytes it was given", w.FnPos(SC), "")
 }
@@ -506,13 +557,54 @@ func c18Raw(c *Ctx) {
 		c.Evals += s.States
 		recv := "param:" + PS.Params[0].Name()
 		gd := desc(gs)
-		c.requireOnExits("raw/generate-signature", PS, s.Exits, []Need{
+		// where the chain is parsed: found by value on PS's call tree (c18ChainLoopAt). Three places are told apart:
+		//   - in PS itself (parser inlined): the loop's own decision answers cert-chain-parses (see c18ChainLoopOK);
+		//   - in a helper called from PS (any parameter list): PS must test the error of THAT call;
+		//   - not found: the original spelling of the obligation stands (and fails if there is no parser call).
+		// Several loops may range over the chain (one may only log it): in PS, a loop that passes the decision is enough;
+		// among helpers the first one with a single call site in PS is taken.
+		frPS := newC18Frame(w, PS)
+		var chainFn *ssa.Function
+		var chainLoop sliceLoop
+		chainFound := false
+		var chainCall *ssa.Call // the call in PS whose callee holds the loop
+		rank := 0               // 3: loop in PS that passes, 2: loop in a helper, 1: loop in PS that fails
+		for _, cs := range c18ChainLoopsAt(frPS, gd+"#0.CertificateChain") {
+			r, call := 0, (*ssa.Call)(nil)
+			if cs.F == PS {
+				r = 1
+				if okL, _, _ := c18ChainLoopOK(w, PS, cs.Loop, 1); okL {
+					r = 3
+				}
+			} else if ss := frPS.sites[cs.F]; len(ss) == 1 && ss[0] != nil && ss[0].Parent() == PS {
+				r, call = 2, ss[0]
+			}
+			if r > rank {
+				rank, chainFn, chainLoop, chainFound, chainCall = r, cs.F, cs.Loop, true, call
+			}
+		}
+		chainNeed := Need{Name: "cert-chain-parses", What: "every certificate of the response chain parses", Subs: []string{"EQ(call:ngo/signer.", "(" + gd + "#0.CertificateChain)#err,nil)"}}
+		if chainCall != nil {
+			chainNeed.Alt = [][]string{chainNeed.Subs, {"EQ(" + desc(chainCall) + "#err,nil)"}}
+			chainNeed.Subs = nil
+		}
+		var chainDst ssa.Value
+		needs := []Need{}
+		if chainFound && chainFn == PS {
+			okL, dst, detail := c18ChainLoopOK(w, PS, chainLoop, 1)
+			chainDst = dst
+			c.Evals += 3
+			c.Check(okL, "raw/generate-signature/cert-chain-parses", "must-check: no success-capable exit of "+fnName(PS)+" is reachable unless every certificate of the response chain parsed (the chain is parsed by a loop of the function itself)", w.InstrPos(blockTerm(chainLoop.Header)), detail)
+			c.Check(okL, "raw/cert-chain-parser", "the chain parser parses every element of the response chain, fails on the first parse error, and returns the parsed certificates in order", w.InstrPos(blockTerm(chainLoop.Header)), detail)
+		} else {
+			needs = append(needs, chainNeed)
+		}
+		c.requireOnExits("raw/generate-signature", PS, s.Exits, append(needs, []Need{
 			{Name: "plugin-error", What: "GenerateSignature err == nil", Subs: []string{"EQ(" + gd + "#err,nil)"}},
 			{Name: "key-id-echo", What: "response key id == requested key id (string equality)", Alt: [][]string{{"EQ(alloc:pfw/plugin.GenerateSignatureRequest<", ">.KeyID," + gd + "#0.KeyID)"}, {"EQ(" + gd + "#0.KeyID,alloc:pfw/plugin.GenerateSignatureRequest<", ">.KeyID)"}, {"EQ(" + recv + ".keyID," + gd + "#0.KeyID)"}, {"EQ(" + gd + "#0.KeyID," + recv + ".keyID)"}}},
-			{Name: "cert-chain-parses", What: "every certificate of the response chain parses", Subs: []string{"EQ(call:ngo/signer.", "(" + gd + "#0.CertificateChain)#err,nil)"}},
 			{Name: "key-spec-encodes", What: "EncodeKeySpec(described key spec) err == nil", Subs: []string{"EQ(call:ngo/plugin/proto.EncodeKeySpec(" + recv + ".keySpec)#err,nil)"}},
 			{Name: "hash-of-key-spec", What: "HashAlgorithmFromKeySpec(described key spec) err == nil", Subs: []string{"EQ(call:ngo/plugin/proto.HashAlgorithmFromKeySpec(" + recv + ".keySpec)#err,nil)"}},
-		})
+		}...))
 		req := map[string]string{}
 		for _, b := range PS.Blocks {
 			for _, in := range b.Instrs {
@@ -533,6 +625,17 @@ func c18Raw(c *Ctx) {
 					okChain = true
 				}
 			}
+			// the same by value: result #0 of the call whose callee holds the chain loop, or — loop in PS itself — the
+			// very slice the loop stored the parsed certificates in
+			if chainCall != nil && desc(ex.Ret.Results[1]) == res(chainCall, 0) {
+				okChain = true
+			}
+			if chainDst != nil {
+				r := ex.Ret.Results[1]
+				if ph, isPhi := r.(*ssa.Phi); r == chainDst || (isPhi && phiHas(ph, chainDst)) {
+					okChain = true
+				}
+			}
 			if desc(ex.Ret.Results[0]) != gd+"#0.Signature" || !okChain {
 				okRet = false
 			}
@@ -547,6 +650,13 @@ func c18Raw(c *Ctx) {
 			if P := staticCallee(call); P != nil && w.IsProductFn(P) {
 				c18ChainParser(c, P)
 			}
+		}
+		// a helper that is handed more than the chain (the response, a context, …): same decision on the loop found by value
+		if chainCall != nil && !(len(chainCall.Call.Args) == 1 && desc(chainCall.Call.Args[0]) == gd+"#0.CertificateChain") {
+			c.SeenFn(chainFn.String())
+			okL, _, detail := c18ChainLoopOK(w, chainFn, chainLoop, 0)
+			c.Evals += 3
+			c.Check(okL, "raw/cert-chain-parser", "the chain parser parses every element of the response chain, fails on the first parse error, and returns the parsed certificates in order", w.FnPos(chainFn), detail)
 		}
 	}
 	c18Primitive(c)
